@@ -36,9 +36,47 @@ REFINED = ["add_one_in_place", "sub_one_in_place", "add_word_in_place", "sub_wor
            "pow_word_base/pow_dword_base with real buffers (what the driver runs): capacity assertions, scratch "
            "allocation, 'never resize', length bounds exp/wexp+1 and 2*exp; TypedReprRef::pow / UBig::pow / IBig::pow end to end",
            "composition: Toom-3's div_by_word_in_place(t1,6) / shr_in_place(t2,1) are exactly C02's mirrored kernels with "
-           "remainder 0; UBig::pow/IBig::pow run through C09's mirrored trailing_zeros / >> / << (what the driver executes)"]
-FRONTIER = ["Buffer MAX_CAPACITY clamping / allocation panics (C17) and the checked_add/checked_mul guards on huge exponents "
-            "(C16); sqr::MAX_LEN_SIMPLE = 30 is a model constant, not regenerated from source"]
+           "remainder 0; UBig::pow/IBig::pow run through C09's mirrored trailing_zeros / >> / << (what the driver executes)",
+           "math::mul_add_carry / mul_add_2carry / mul_add_carry_dword (the four word products behind mul_dword_spilled, "
+           "square_dword_spilled, pow_dword_base)",
+           "Tie A: memory_requirement_* of mul/karatsuba/toom_3/sqr, pow_word_base's exp<wexp / exp<2*wexp split and the "
+           "Buffer::allocate / scratch sizes of pow_word_base / pow_dword_base regenerated (Gen/Scratch.lean) and proved to be "
+           "the model's; sqr::MAX_LEN_SIMPLE regenerated (Gen/Misc.lean) and used by the squaring dispatch",
+           "Tie A (round 5): the TypedRepr-level dispatch of + - * sub_signed — all 16 impls (4 traits x 4 ownership forms) of "
+           "add_ops.rs mod repr / mod repr_signed and mul_ops.rs mod repr — regenerated (Gen/IntDispatch.lean, callee records "
+           "with signatures inferred from the match patterns), EXECUTED by the driver over the mirrored kernels, and proved equal "
+           "to the hand-written TRepr.add/sub/subSigned/mul that all other theorems are about; mul_dword's one-word test and "
+           "mul_large's equal-operands shortcut / buffer+scratch sizes, mul_large_dword's skeleton (0 / 1 / one word: power of "
+           "two -> shl_in_place by trailing_zeros else mul_word_in_place / two words with the carry pushed only if non-zero), "
+           "TypedReprRef::sqr's shrink_dword test and mul_dword_spilled / square_dword_spilled regenerated (shape-checked "
+           "transcription, fails closed) and proved equal to the model",
+           "Tie A (round 5), pow.rs: IBig::pow's sign test (translated from the source expression), the magnitude flow of "
+           "UBig::pow / IBig::pow (unwrap_or(0), shift != 0, shr -> pow -> shl with checked_mul evaluated after the receiver), "
+           "TypedReprRef::pow's shortcuts 0/1/2 and base-class split, pow_word_base's shortcut returns and the Buffer::allocate "
+           "arguments of pow_word_base / pow_dword_base: regenerated and proved equal to what the driver runs",
+           "UBig - UBig in all four ownership forms (one theorem: same canonical difference, or panic_negative_ubig iff a < b); "
+           "UBig + UBig, UBig * UBig (val/ref multiplies in the other operand order), sub_signed in all four forms",
+           "link to C05: mul_large's equal-operands test cmp_in_place(lhs, rhs).is_eq(), computed by C05's mirrored cmpInPlace, "
+           "is equality of the word lists (cmp_in_place_is_eq, mul_large_regenerated_cmp)",
+           "public UBig::sqr / UBig::cubic / IBig::sqr / IBig::cubic: bodies regenerated (which repr-level op, which ownership form "
+           "of Mul), executed by the driver, exact",
+           "UBig/IBig (+,-,*) primitive integers of all 12 types, both operand orders, value/reference/assign forms: "
+           "UBig::from / IBig::from of the primitive, then the same dispatch (driven; covered by the all-forms theorems)",
+           "the allocation guards of pow: the up-front result buffer of pow_word_base (exp/wexp + 1 words, checked_add) / "
+           "pow_dword_base (2*exp, checked_mul) and the final << (shl_one_spilled / shl_dword_spilled / shl_large_ref -> "
+           "Buffer::allocate(n), n > MAX_CAPACITY = usize::MAX / WORD_BITS => panic_allocate_too_much): mirrored, executed, and UBig::pow / IBig::pow "
+           "characterised completely (panic iff powAllocPanics, a predicate on values; else exact canonical power)"]
+FRONTIER = ["pow results between ~2^22 bits and the MAX_CAPACITY guard (2^22 < exp*shift < 2^64 - 64, or an odd part > 1 "
+            "with a huge exponent): the model states the exact power, but neither side can be EXECUTED — the real code would "
+            "really allocate (outcome 'out of memory' or success depends on the allocator and the machine, not on dashu), the "
+            "model would build the number; the theorem u_pow_guarded_iff covers these inputs, the correspondence does not",
+            "Buffer capacity policy (default_capacity growth/clamping, reallocation) and MemoryAllocation::new size/align "
+            "arithmetic are C17's ledger model; only the MAX_CAPACITY comparison of Buffer::allocate is mirrored here",
+            "arch intrinsics (add_with_carry, sub_with_borrow, overflowing_add/sub, checked_sub, wrapping_neg, "
+            "extend_word/split_dword/shrink_dword) are taken at their documented contracts: they are compiler/hardware "
+            "primitives, no executable model below them",
+            "THRESHOLD_KARATSUBA appears as the literal 192 in the Toom-3 scratch-potential argument (Proofs/Int/Memory.lean): a "
+            "change of that constant is reported as a broken obligation (no-failing-input-found), not re-proved automatically"]
 RULE = ("operand sizes drawn from the size classes {0,1,2,3,4,5, thr-1,thr,thr+1 for thr in 24,32,192, 385, 400, 1025, 2049...} x "
         "bit patterns {10..0, 1..1, 2^k, 2^k+-1, sparse, low words zero, random} x signs x "
         "{add,sub,mul,sqr,cubic,pow} x operand kinds (UBig, IBig, mixed); plus a deterministic block of carry/borrow chains "
@@ -48,8 +86,16 @@ RULE = ("operand sizes drawn from the size classes {0,1,2,3,4,5, thr-1,thr,thr+1
         "(a = (B^n-1) + B^n(B^n-B^lo), b = B^n-B^j for n around every threshold) that drive the carry-propagation "
         "windows of Karatsuba / Toom-3 / chunk splitting to all-ones; pow: bases {0,1,2,2^k,3,10,B-1,B,B+1,2-word,3-word, bases "
         "with a factor 2^s} x exponents {0..5, around wexp and 2*wexp of max_exp_in_word, powers of two +-1, up to 200 "
-        "(thorough: 1000)} bounded by result size (quick 2e5 bits, thorough 3e6 bits); every case runs all ownership/"
-        "assign call forms in the harness. Non-trivial := at least one operand has >= 3 words; distinct := distinct "
+        "(thorough: 1000)} bounded by result size (quick 2e5 bits, thorough 3e6 bits); "
+        "E1 (usize exponent of pow): 0, 1, W-1, W, W+1, 2W, 2^31, 2^32-1, 2^32, 2^32+k, 2^58+-1, 2^63, MAX-k (k <= 130) for the "
+        "bases 0, 1, -1 and for 2^s (s = 1..1000: word, double-word and heap bases) on both sides of the two panic boundaries "
+        "(exp*s = 2^64, Buffer::allocate argument = MAX_CAPACITY), wherever the outcome is decided without allocating; "
+        "E2: 2^k-1, 2^k, 2^k+1 for EVERY bit length k < 330 (thorough 1700) through add/sub (growth, shrink, underflow by one), "
+        "mul, sqr, cubic, and pow bases of every bit length 2..128 around wexp / 2*wexp; "
+        "primitive operands: every primitive type (u8..u128, usize, i8..i128, isize) at 0, 1, MAX, MAX-1, MAX/2, MIN, MIN+1, -1 "
+        "and random values x big operands of every representation class x {add,sub,mul} x both operand orders, incl. both sides "
+        "of the UBig underflow (a = p, p+-1); every case runs all ownership/assign call forms in the harness (and the four "
+        "regenerated ownership forms in the model). Non-trivial := at least one operand has >= 3 words; distinct := distinct "
         "(op,args) lines.")
 EXPLANATION = ("Theorems (all W >= 1, all lengths, all signs): + and - are refined from the operator sign tables through the "
                "inline/heap dispatch (every ownership form) down to the word-level carry/borrow loops, incl. the UBig "
@@ -62,7 +108,10 @@ EXPLANATION = ("Theorems (all W >= 1, all lengths, all signs): + and - are refin
                "window updates) and squaring (sqr::simple::square and the dispatch to mul for > 30 words) are refined as "
                "well: no multiplication kernel is left at the model frontier. Found while stating the pow theorem and since repaired in /repo (fix: 099d251): "
                "`exp * shift` in UBig::pow/IBig::pow overflowed usize for base = 2^s, exp*s >= 2^64 (wrong value 1 in "
-               "release builds); the corpus witness now agrees with the model (documented allocation panic).")
+               "release builds); the corpus witness now agrees with the model (documented allocation panic). Round 5: the "
+               "operator dispatch (16 impls), public sqr/cubic and the mul_ops guards are regenerated from source and executed by "
+               "the driver; UBig-UBig underflow in all four ownership forms is one theorem; pow carries the MAX_CAPACITY guard of "
+               "its final shift, so usize::MAX-class exponents are driven and the panic class is characterised exactly.")
 ASSUMPTIONS = ["arch add_with_carry/sub_with_borrow and overflowing_add behave as their documented contracts"]
 
 THRESH = [24, 32, 192]
@@ -311,6 +360,185 @@ def usub_boundary_cases(rng, tier):
         yield Case("u.sub", [hx(a), hx(b)])
 
 
+PRIM_U = {"u8": 8, "u16": 16, "u32": 32, "u64": 64, "usize": 64, "u128": 128}
+PRIM_I = {"i8": 8, "i16": 16, "i32": 32, "i64": 64, "isize": 64, "i128": 128}
+
+def prim_cases(rng, tier):
+    """`+ - *` between UBig / IBig and every primitive integer type (add_ops.rs / mul_ops.rs "Ops with primitives"),
+    all call forms in the harness: primitive values at the ends of the type (0, 1, MAX, MAX-1, MIN, MIN+1, -1, one
+    random value of every bit length class), big operands of every representation class (0, one word, two words,
+    the 2/3-word boundary, heap values with all-ones low words so that the carry/borrow runs into the heap part or
+    shrinks it, 24/25 words), and for `-` both sides of the UBig underflow panic (a = p, p +- 1)."""
+    B = 1 << 64
+    bigs = [0, 1, 2, B - 1, B, B + 1, B * B - 1, B * B, B * B + 1, B ** 3 - 1, B ** 3, (B ** 3) + B - 1,
+            B ** 4 - B * B, nat_pattern(rng, 3, "random"), nat_pattern(rng, 5, "random"), B ** 24 - 1, B ** 25 - 1,
+            nat_pattern(rng, 25, "random")]
+    reps = 1 if tier == "quick" else 4
+    for ty, bits in list(PRIM_U.items()) + list(PRIM_I.items()):
+        signed_ty = ty in PRIM_I
+        lo, hi = (-(1 << (bits - 1)), (1 << (bits - 1)) - 1) if signed_ty else (0, (1 << bits) - 1)
+        vals = {0, 1, 2, hi, hi - 1, hi // 2, hi // 2 + 1, lo, lo + 1}
+        if signed_ty:
+            vals |= {-1, -2}
+        for _ in range(reps):
+            k = rng.randrange(1, bits)
+            v = rng.getrandbits(k) | (1 << (k - 1))
+            vals.add(min(v, hi)); vals.add((1 << k) - 1 if (1 << k) - 1 <= hi else hi)
+            if signed_ty:
+                vals.add(max(-v, lo))
+        for pv in sorted(vals):
+            pool = bigs + [abs(pv), abs(pv) + 1, max(abs(pv) - 1, 0), abs(pv) + B, abs(pv) + B * B]
+            picks = pool if tier == "thorough" else rng.sample(pool, 7) + [abs(pv), abs(pv) + 1, max(abs(pv) - 1, 0)]
+            for a in picks:
+                for op in ("add", "sub", "mul"):
+                    if tier == "quick" and rng.random() < 0.65:
+                        continue
+                    if not signed_ty:
+                        yield Case("up." + op, [ty, hx(a), hx(pv)])
+                        yield Case("pu." + op, [ty, hx(pv), hx(a)])
+                    sa = signed(rng, a)
+                    yield Case("ip." + op, [ty, hx(sa), hx(pv)])
+                    yield Case("pi." + op, [ty, hx(pv), hx(-sa if rng.random() < 0.5 else sa)])
+
+
+USIZE_MAX = (1 << 64) - 1
+BUF_MAX_CAPACITY = USIZE_MAX // 64
+
+def extreme_usize(rng, tier):
+    """ROUND4 addendum E1: 0, 1, W-1, W, W+1, 2W, 2^31, 2^32-1, 2^32, 2^32+k (k < 130), 2^63, MAX-k (k = 0..130)"""
+    W = 64
+    v = [0, 1, 2, 3, W - 1, W, W + 1, 2 * W - 1, 2 * W, 2 * W + 1, (1 << 31) - 1, 1 << 31, (1 << 31) + 1, (1 << 32) - 1, 1 << 32,
+         (1 << 63) - 1, 1 << 63, (1 << 63) + 1, 1 << 62, (1 << 58) - 1, 1 << 58, (1 << 58) + 1]
+    ks = range(130) if tier == "thorough" else [0, 1, 2, 63, 64, 65, 127, 128, 129] + [rng.randrange(130) for _ in range(6)]
+    for k in ks:
+        v.append((1 << 32) + k)
+        v.append(USIZE_MAX - k)
+    v.append(USIZE_MAX - 130)
+    return sorted(set(v))
+
+def pow_outcome(b, e, maxbits):
+    """what `UBig::pow(b, e)` must do, decided without computing it: 'panic' (the documented allocation panic, raised
+    before anything is allocated), 'cheap' (result below maxbits), or None (result astronomically large / the
+    allocation would be attempted: not driven).  Mirrors pow.rs + shift_ops.rs `shl` + Buffer::allocate."""
+    if e == 0 or b <= 1:
+        return "cheap"
+    s = (b & -b).bit_length() - 1
+    odd = b >> s
+    if e >= 3 and odd != 1:
+        # the result buffer of pow_word_base / pow_dword_base is allocated up front (the odd part is powered first)
+        if odd < (1 << 64):
+            w = max_exp_in_word(odd)
+            if e >= 2 * w and e // w + 1 > BUF_MAX_CAPACITY:
+                return "panic"
+        elif odd < (1 << 128) and 2 * e > BUF_MAX_CAPACITY:
+            return "panic"
+    if odd.bit_length() * e > maxbits and odd != 1:
+        return None
+    if s == 0:
+        return "cheap"
+    n = e * s
+    if n > USIZE_MAX:
+        return "panic" if odd == 1 else None       # the odd part is powered first: only cheap when it is 1
+    if odd == 1:
+        # r = 1: shl_dword(1, n): fits the double word, else shl_one_spilled allocates n/64 + 1 words
+        if n <= 127:
+            return "cheap"
+        if n // 64 + 1 > BUF_MAX_CAPACITY:
+            return "panic"
+        return "cheap" if n <= maxbits else None
+    return "cheap" if n + odd.bit_length() * e <= maxbits else None
+
+def pow_extreme_cases(rng, tier):
+    """E1 for the `usize` exponent of UBig::pow / IBig::pow: every extreme exponent for the bases whose power is cheap
+    (0, 1, -1: the shortcuts of pow_word_base and the sign rule by parity) and for powers of two 2^s of every
+    representation class (word, double word, heap), where the outcome is either a small shift or the documented
+    allocation panic: `exp * shift` overflowing usize (`checked_mul`), or a shift whose `Buffer::allocate` argument
+    exceeds MAX_CAPACITY (`2.pow(usize::MAX - k)`, k < 64).  Exponents for which the code would really try to allocate
+    (between ~2^22 and 2^64 - 64 result bits) are not driven: the outcome depends on the allocator."""
+    maxbits = 200_000 if tier == "quick" else 3_000_000
+    exps = extreme_usize(rng, tier)
+    for b in (0, 1):
+        for e in exps:
+            yield Case("u.pow", [hx(b), dec(e)])
+            yield Case("i.pow", [hx(-b), dec(e)])
+            yield Case("i.pow", [hx(b), dec(e)])
+    shifts = [1, 2, 3, 7, 31, 32, 33, 62, 63, 64, 65, 100, 127, 128, 129, 130, 191, 192, 193, 200, 1000]
+    for s in shifts:
+        b = 1 << s
+        cand = set(exps)
+        # both sides of the two panic boundaries: exp*s = 2^64 +- small, and allocate(n/64 + 1) = MAX_CAPACITY +- 1
+        q = (1 << 64) // s
+        cand |= {q - 1, q, q + 1, q + 2}
+        lim = BUF_MAX_CAPACITY * 64            # smallest n with n/64 + 1 > MAX_CAPACITY
+        cand |= {-(-lim // s), -(-lim // s) + 1}
+        for e in sorted(x for x in cand if 0 <= x <= USIZE_MAX):
+            if pow_outcome(b, e, maxbits) is None:
+                continue
+            yield Case("u.pow", [hx(b), dec(e)])
+            if rng.random() < 0.5:
+                yield Case("i.pow", [hx(-b), dec(e)])
+    # odd parts > 1: word bases (wexp from 1 to 40), double-word bases, with and without a factor 2^s — the up-front
+    # Buffer::allocate of pow_word_base (exp / wexp + 1 words) / pow_dword_base (2 * exp words) against MAX_CAPACITY
+    B = 1 << 64
+    obases = [3, 5, 7, 10, 12, 255, (1 << 16) + 1, (1 << 32) - 1, (1 << 32) + 1, B - 1, 3 << 20, 5 << 64, 3 << 130,
+              B + 1, B * B - 1, 3 * B, (B + 1) << 5, (B * B - 1) << 64]
+    for b in obases:
+        s = (b & -b).bit_length() - 1
+        odd = b >> s
+        cand = set(exps)
+        if odd < B:
+            w = max_exp_in_word(odd)
+            cand |= {w * BUF_MAX_CAPACITY, w * BUF_MAX_CAPACITY + 1, w * BUF_MAX_CAPACITY + w, w * (BUF_MAX_CAPACITY + 1)}
+        else:
+            cand |= {BUF_MAX_CAPACITY // 2 + 1, BUF_MAX_CAPACITY // 2 + 2, BUF_MAX_CAPACITY, BUF_MAX_CAPACITY + 1}
+        for e in sorted(x for x in cand if 0 <= x <= USIZE_MAX):
+            if pow_outcome(b, e, maxbits) is None:
+                continue
+            yield Case("u.pow", [hx(b), dec(e)])
+            if rng.random() < 0.5:
+                yield Case("i.pow", [hx(-b), dec(e)])
+
+
+def every_bit_length_cases(rng, tier):
+    """E2: the boundary operands 2^k - 1, 2^k, 2^k + 1 for EVERY bit length k (not only near the ends of a word):
+    carries that grow / borrows that shrink the bit length by one, products and squares on both sides of every word
+    boundary, the UBig underflow by one; and pow bases of every bit length 2..64 (word lifting: `max_exp_in_word`
+    depends on the bit length) and a double-word base of every bit length 65..128, around wexp and 2*wexp."""
+    top = 330 if tier == "quick" else 1700
+    for k in range(0, top):
+        p = 1 << k
+        j = rng.randrange(0, top)
+        q = (1 << j) + rng.choice([-1, 0, 1])
+        q = max(q, 0)
+        yield Case("u.add", [hx(p - 1), hx(1)])
+        yield Case("u.sub", [hx(p), hx(1)])
+        yield Case("u.sub", [hx(p - 1), hx(p)])                  # underflow by one
+        yield Case("i.sub", [hx(p - 1), hx(p + 1)])
+        yield Case("i.add", [hx(-(p + 1)), hx(p - 1)])
+        yield Case("u.mul", [hx(p - 1), hx(q)])
+        yield Case("ui.mul", [hx(p + 1), hx(-q)])
+        if k % 3 == 0 or tier == "thorough":
+            yield Case("u.sqr", [hx(p - 1)])
+            yield Case("i.sqr", [hx(-(p + 1))])
+            yield Case("u.cubic", [hx(p - 1)])
+            yield Case("i.cubic", [hx(-(p + 1))])
+    maxbits = 200_000 if tier == "quick" else 3_000_000
+    for k in range(2, 129):
+        for b in {(1 << k) - 1, (1 << k) + 1 if k < 128 else (1 << k) - 3, (1 << (k - 1)) | rng.getrandbits(k - 1) | 1}:
+            if b <= 2:
+                continue
+            exps = {2, 3, 4, 5}
+            if b < (1 << 64):
+                w = max_exp_in_word(b)
+                exps |= {w - 1, w, w + 1, 2 * w - 1, 2 * w, 2 * w + 1, 3 * w + 1}
+            for e in sorted(x for x in exps if x >= 0):
+                if b.bit_length() * e > maxbits:
+                    continue
+                yield Case("u.pow", [hx(b), dec(e)])
+                if rng.random() < 0.4:
+                    yield Case("i.pow", [hx(-b), dec(e)])
+
+
 _generate_base = generate
 
 def generate(rng, tier):
@@ -321,28 +549,40 @@ def generate(rng, tier):
     yield from usub_boundary_cases(rng, tier)
     yield from mul_chunk_remainder_cases(rng, tier)
     yield from pow_cases(rng, tier)
+    yield from pow_extreme_cases(rng, tier)
+    yield from every_bit_length_cases(rng, tier)
+    yield from prim_cases(rng, tier)
 
 LEVEL_TEXT = ("Machine-checked Lean 4 theorems, for every word size W >= 1, every operand length and sign: the word-level "
               "carry/borrow loops, the inline/heap dispatch of every ownership form, from_buffer normalisation and the IBig "
-              "sign tables compute exact sums/differences (UBig underflow = documented panic iff a < b) with canonical "
-              "results; multiplication by one or two words, the schoolbook kernels, chunk splitting, the Karatsuba and "
-              "Toom-3 recursions and the squaring kernels (thresholds regenerated from source; W >= 4 because of the "
-              "word constants 6 and 12 of Toom-3) compute exact products, with every asserted-zero carry/borrow/remainder "
-              "(mul::multiply, the Toom-3 scratch arithmetic, sqr::simple) proved zero; the mirrored control flow of pow.rs computes "
-              "base^exp with the IBig sign rule. The hand-written model is tied to /repo on every run by differential "
-              "execution of model and real code over structured operands around every size-class and algorithm threshold, "
-              "all call forms. The single-word division by 6 and the 1-bit shift inside Toom-3 and the shifts / "
-              "trailing_zeros around pow are composed with the mirrored kernels of C02 / C09 (no step at its specification); "
-              "buffer capacity and allocation are C17. Scratch-memory sufficiency of mul_large/square_large is proved for all sizes.")
+              "sign tables compute exact sums/differences (UBig underflow = documented panic iff a < b, in all four ownership "
+              "forms, one theorem) with canonical results; multiplication by one or two words, the schoolbook kernels, chunk "
+              "splitting, the Karatsuba and Toom-3 recursions and the squaring kernels (thresholds regenerated from source; "
+              "W >= 4 because of the word constants 6 and 12 of Toom-3) compute exact products, with every asserted-zero "
+              "carry/borrow/remainder (mul::multiply, the Toom-3 scratch arithmetic, sqr::simple) proved zero; the public "
+              "sqr/cubic of UBig/IBig are exact; the mirrored control flow of pow.rs computes base^exp with the IBig sign rule, "
+              "and UBig::pow / IBig::pow are characterised completely for every usize exponent: the documented allocation "
+              "panic exactly on an explicit class of (base, exp) values, the exact canonical power otherwise. "
+              "Tie A (regenerated from /repo on every run, a semantic edit breaks a theorem): IBig sign tables, the 16 "
+              "TypedRepr-level operator impls (which kernel each match arm calls, with which operands, which sign flip), "
+              "public sqr/cubic bodies, mul_dword / mul_large guards, all multiplication thresholds, MAX_LEN_SIMPLE, the "
+              "memory_requirement_* formulas and pow buffer sizes. Tie B: differential execution of the model (which runs the "
+              "regenerated dispatch over the mirrored kernels) and the real code over structured operands around every "
+              "size-class and algorithm threshold, every bit length, extreme exponents, all primitive operand types, all call "
+              "forms. The single-word division by 6 and the 1-bit shift inside Toom-3 and the shifts / trailing_zeros around pow "
+              "are composed with the mirrored kernels of C02 / C09 (no step at its specification); buffer capacity policy is C17. "
+              "Scratch-memory sufficiency of mul_large/square_large is proved for all sizes.")
 LEVEL_NOTE = ("Trusted: Lean kernel; axioms propext/Classical.choice/Quot.sound; the correspondence harness and generators "
-              "(sampling) for the tie model<->code; arch intrinsics (add_with_carry, sub_with_borrow, overflowing_add, "
-              "split_dword/extend_word) at their documented contracts; frontier kernels listed in evidence are modelled as "
-              "their specification, not verified; usize exponent arithmetic only through the powShiftOverflows guard; "
-              "allocation/capacity is C17.")
+              "(sampling) for the tie kernels<->code (the dispatch above the kernels is regenerated, not sampled); the extraction "
+              "script vlib/extract_intdispatch.py (fails closed on any construct outside its subset); arch intrinsics "
+              "(add_with_carry, sub_with_borrow, overflowing_add, split_dword/extend_word) at their documented contracts; "
+              "usize = 64 bits; pow results that would need a real allocation "
+              "between ~2^22 bits and MAX_CAPACITY words are covered by theorem only (not executable on either side); "
+              "buffer capacity policy / allocation layout is C17.")
 TECHNIQUE = "Lean 4 refinement proofs (induction over word lists, all W) + differential correspondence model vs real code"
 
 # Tie A: IBig sign tables regenerated from integer/src/{add_ops,mul_ops}.rs on every run
 USES_GEN = True
-GEN_PROPS = ["Dashu.Props.GenInt"]
-GEN_AUDIT = ["Dashu.Audit.GenInt"]
+GEN_PROPS = ["Dashu.Props.GenInt", "Dashu.Props.C01Dispatch"]
+GEN_AUDIT = ["Dashu.Audit.GenInt", "Dashu.Audit.C01Dispatch"]
 READY = True
